@@ -3,14 +3,11 @@
  * loop contracts of all tables are injected into the one scratch copy of the file. */
 #ifndef H4V_HFILEDD_DIR_GHOST_H
 #define H4V_HFILEDD_DIR_GHOST_H
-/* ghost ref: a proof for arbitrary g_nr_r is a proof for all refs */
-unsigned g_nr_r;
-/* abstraction of the DD list: g_nr_used[r] != 0 iff some DD with tag != DFTAG_NULL has ref r
-   (what HTIfind_dd(file, DFTAG_WILDCARD, r, NULL, DF_FORWARD) decides) */
-#ifndef H4V_NR_N
-#define H4V_NR_N 65536
-#endif
-unsigned char g_nr_used[H4V_NR_N];
+/* Abstraction of "which refs are used by some DD" for a linear search from 1: the smallest ref
+ * r in 1..65535 such that no DD with tag != DFTAG_NULL has ref r, or 0 if every ref is in use.
+ * (Any set of used refs has exactly one such value; refs below it are all used.) */
+unsigned g_nr_first_free;
+#define H4V_NR_LIMIT (g_nr_first_free == 0 ? 65536u : g_nr_first_free)
 /* Hnewref's search loop: every ref below the loop counter is in use */
-#define H4V_HNEWREF_INV(i) ((g_nr_r >= 1 && g_nr_r < (i)) ==> g_nr_used[g_nr_r] != 0)
+#define H4V_HNEWREF_INV(i) ((i) <= H4V_NR_LIMIT)
 #endif
